@@ -96,6 +96,9 @@ def run(ck, prog):
     atoms = {a for a in atoms if a not in ABS_REG} | inner
     ck.ob("DEP", construct, atoms <= {"npos", "nneg", "N"}, expected=["N", "nneg", "npos"], found=sorted(atoms),
           slot="depends-on", where=f.loc())
+    # (3b) n+ / n- are the counts of K,R / D,E: the charge classes the constructor assigns (shared obligation with C02/C04/C05)
+    from props.common import check_charge_map
+    ck.attempt(check_charge_map, ck, prog)
     # (4) single rounding
     for meth in ("FCR", "NCPR", "Fplus", "Fminus"):
         g = prog.fn(SEQ, "Sequence." + meth)
